@@ -42,8 +42,15 @@ inductive Cmd
   /-- a memory copy under `globalStorageMemoryCopyMiddleware` (the "magic" copy of emulation
       platforms): done inside `ProcessCommand` (`IsRunning = false; Dequeue; return true`), no request -/
   | mcopy
-  /-- a command no stage and no middleware handles (`FlushCommand`: exported, `Driver.Enqueue`
-      accepts it, `defaultMemoryCopyMiddleware.ProcessCommand` answers `false`) -/
+  /-- `FlushCommand` under `defaultMemoryCopyMiddleware` (repaired: `processFlushCommand`): one `FlushReq` per GPU
+      straight into `requestsToSend`, the queue runs until the last answer (`processFlushReturn` +
+      `completeCommandIfDone`); no page piece, the delay line is not touched; without a GPU it completes at once -/
+  | fl
+  /-- a command no stage and no middleware handles, as the driver treated it BEFORE the repair (then: `FlushCommand` —
+      exported, `Driver.Enqueue` accepts it, `defaultMemoryCopyMiddleware.ProcessCommand` answered `false`, the command
+      stayed at the head of its queue). The repaired `processCommandWithMiddleware` panics naming the type instead
+      (not modelled: no legitimate event enqueues such a command, `Ev.legit`); kept for
+      `no_lost_wakeup_any_command_before_fix_refuted`. -/
   | unhandled
 deriving DecidableEq, Repr
 
@@ -307,7 +314,11 @@ def procQ (d : D) (i : Nat) (q : Q) : Q × Started × Bool :=
         if nf + pieces = 0 then ({ q with cmds := cs, running := false, left := 0 }, st, true)
         else ({ q with running := true, left := nf + pieces }, st, true)
       | .mcopy => ({ q with cmds := cs }, {}, true)
-      | .unhandled => (q, {}, false)      -- `processCommandWithMiddleware`: nobody processed it
+      | .fl =>
+        let st : Started := { send := List.replicate d.nGpus (.flush i) }
+        if d.nGpus = 0 then ({ q with cmds := cs, running := false, left := 0 }, st, true)
+        else ({ q with running := true, left := d.nGpus }, st, true)
+      | .unhandled => (q, {}, false)      -- before the repair: `processCommandWithMiddleware`, nobody processed it
 
 /-- apply what one started command adds -/
 def applyStarted (d : D) (ctx : Nat) (st : Started) : D :=
@@ -354,9 +365,9 @@ def returnCaseNames : List String :=
   ["LaunchKernelRsp", "RDMADrainRspToDriver", "ShootDownCompleteRsp", "PageMigrationRspToDriver", "RDMARestartRspToDriver", "GPURestartRsp"]
 def generalRspNames : List String := ["FlushReq", "MemCopyH2DReq", "MemCopyD2HReq"]
 def handledCommandNames : List String :=
-  ["LaunchKernelCommand", "LaunchUnifiedMultiGPUKernelCommand", "MemCopyD2HCommand", "MemCopyH2DCommand", "NoopCommand"]
-/-- the command type `Cmd.unhandled` stands for -/
-def unhandledCommandNames : List String := ["FlushCommand"]
+  ["FlushCommand", "LaunchKernelCommand", "LaunchUnifiedMultiGPUKernelCommand", "MemCopyD2HCommand", "MemCopyH2DCommand", "NoopCommand"]
+/-- the command types without a handler (`Cmd.unhandled` stood for `FlushCommand` before the repair): none -/
+def unhandledCommandNames : List String := []
 
 /-- the stages of `Driver.Tick` in program order -/
 def stages (k : Caps) : List (Stage D GMsg GReq) :=
@@ -492,7 +503,8 @@ def parseOp (w : String) : Option Op :=
     | some q, some p => if dir = "h" then some (.enq q (.copy false p)) else if dir = "d" then some (.enq q (.copy true p)) else none
     | _, _ => none
   | ["g", q] => q.toNat?.map fun q => .enq q .mcopy
-  | ["f", q] => q.toNat?.map fun q => .enq q .unhandled
+  | ["f", q] => q.toNat?.map fun q => .enq q .fl
+  | ["u", q] => q.toNat?.map fun q => .enq q .unhandled   -- the driver before the repair (Lean-side witnesses only)
   | ["K"] => some .kick
   | ["T"] => some .tick
   | ["o"] => some .out
